@@ -950,6 +950,52 @@ def _dump_entries(fa: FA):
     return entries
 
 
+def _option_fields(ck, cls, options):
+    """{option: fields of the backend that hold it}: a field whose constructor-assigned value derives from the
+    constructor argument of the option, anywhere along the chain of base constructors (argument names are kept along
+    the chain); of several fields fed by an option, those fed by the fewest options (the metadata path falls back to the
+    data path, so it is fed by both options -- the data path is held by the field fed by `path` alone)."""
+    feeds = {}
+    for c in ck.repo.mro(cls):
+        init = c.methods.get("__init__")
+        if init is None:
+            continue
+        fa = _FA(ck, init)
+        for st in fa.stmts((ast.Assign, ast.AnnAssign)):
+            ids = fa.nodes(st)
+            for (t, v) in PM._flat_targets(st):
+                f = A.dotted(t) if isinstance(t, ast.Attribute) else None
+                if not (f and f.startswith("self.") and f.count(".") == 1) or v is None or not ids:
+                    continue
+                try:
+                    atoms = fa.deps(v, ids[0])
+                except AnalysisError:
+                    continue
+                ks = {ARG_TO_KEY.get(a_[6:], a_[6:]) for a_ in atoms if a_.startswith("param:")} & set(options)
+                if ks:
+                    feeds.setdefault(f[5:], set()).update(ks)
+    out = {}
+    for k in options:
+        fs = [f for f, ks in feeds.items() if k in ks]
+        if fs:
+            least = min(len(feeds[f]) for f in fs)
+            out[k] = {f for f in fs if len(feeds[f]) == least}
+    return out
+
+
+def _self_fields_read(fa, e, st):
+    """First-level fields of self an expression reads (locals expanded)."""
+    try:
+        e = fa.expand(e, (fa.nodes(st) or [None])[0])
+    except AnalysisError:
+        pass
+    out = set()
+    for x in ast.walk(e):
+        if isinstance(x, ast.Attribute) and isinstance(x.value, ast.Name) and x.value.id == "self":
+            out.add(x.attr)
+    return out
+
+
 # =====================================================================================================
 # R2: base_dir
 # =====================================================================================================
@@ -1186,6 +1232,7 @@ def _first_match(ck, R4):
     why = None
     where = gc.where()
     lazy_ok = set()  # texts of `next((r.clusters[name] for r in self.repos if name in r.clusters), None)`: first match by construction
+    eager_ok = set()  # texts of `[r.clusters[name] for r in self.repos if name in r.clusters]`: all hits, in repository order
     if not over_repos:
         comp = [x for x in A.walk_body(gc.node) if isinstance(x, (ast.ListComp, ast.GeneratorExp, ast.SetComp, ast.DictComp))
                 and any(A.dotted(y) == "self.repos" for y in ast.walk(x))]
@@ -1195,6 +1242,16 @@ def _first_match(ck, R4):
             lv = A.norm(g.target)
             shape = isinstance(x, ast.GeneratorExp) and isinstance(call, ast.Call) and A.call_dotted(call) == "next" and len(call.args) == 2 \
                 and call.args[0] is x and not call.keywords and len(x.generators) == 1
+            if not shape and isinstance(x, ast.ListComp) and len(x.generators) == 1:
+                # every hit collected in repository order: what the function then answers with is judged per path below
+                # (the first element where there is one, None where there is none)
+                if A.norm(g.iter) != "self.repos":
+                    why = "the repositories are searched as `%s`, not in self.repos order" % A.norm(g.iter)
+                elif not (A.norm(x.elt) == "%s.clusters[%s]" % (lv, nm) and [A.norm(c) for c in g.ifs] == ["%s in %s.clusters" % (nm, lv)]):
+                    why = "`%s` does not collect the clusters of the repositories defining the name" % A.short(x, 60)
+                else:
+                    eager_ok.add(A.norm(x))
+                continue
             ck.need(shape, "get_cluster: the search over self.repos is a comprehension of a shape this rule cannot decide")
             if not A.is_none(call.args[1]):
                 why = "without a hit the function returns `%s`, not None" % A.short(call.args[1], 40)
@@ -1204,7 +1261,7 @@ def _first_match(ck, R4):
                 why = "`%s` does not yield the cluster of the first repository defining the name" % A.short(x, 60)
             else:
                 lazy_ok.add(A.norm(call))
-    if lazy_ok or (why and not over_repos):
+    if lazy_ok or eager_ok or (why and not over_repos):
         pass
     elif len(over_repos) != 1:
         why = "%d loops over self.repos" % len(over_repos)
@@ -1291,6 +1348,15 @@ def _first_match(ck, R4):
             continue
         for (l, v) in _value_cases(ck, gc, p.lits, p.value, p.env):
             if A.norm(v) in lazy_ok and ("%s is None" % nm, False) in l:
+                continue
+            # the hits collected first: the first of them where there is one, None where there is none
+            if any(A.norm(v) == c_ + "[0]" and (c_, True) in l for c_ in eager_ok) and ("%s is None" % nm, False) in l:
+                continue
+            if A.is_none(v) and any((c_, False) in l for c_ in eager_ok) and ("%s is None" % nm, False) in l:
+                continue
+            if any(c_ in A.norm(v) for c_ in eager_ok):
+                why = "of the clusters found in repository order the function answers with `%s`, not with the first" % A.short(v, 60).replace(
+                    next(c_ for c_ in eager_ok if c_ in A.norm(v)), "<hits>")
                 continue
             if not (("%s is None" % nm, True) in l and A.norm(v) == "self.default_cluster"):
                 why = "`%s` is returned without searching the repositories" % A.short(v, 50)
@@ -2230,6 +2296,21 @@ def check(ck):
                 ck.ob(R1, "%s::option-dumped::%s" % (cls.qual, opt), opt in dumped,
                       "documented option %r is written by to_dict" % opt if opt in dumped else
                       "documented option %r is not written by to_dict: an environment rebuilt from its dump loses it" % opt, td.where())
+            # what is dumped under an option is read off the field that holds that option (not off the field of another
+            # option: a dump that writes the data path as the metadata path rebuilds a different backend)
+            holders = _option_fields(ck, cls, doc)
+            for e in entries:
+                if e.key not in holders or e.value is None:
+                    continue
+                got = _self_fields_read(td, e.value, e.stmt)
+                if not got:
+                    continue
+                okh = bool(got & holders[e.key])
+                ck.ob(R1, "%s::dumped-from-its-field::%s" % (cls.qual, e.key), okh,
+                      "option %r is dumped from the field that holds it" % e.key if okh else
+                      "to_dict writes option %r from %s, while the constructor keeps that option in %s: the environment rebuilt from the dump "
+                      "gets another option's value for it" % (e.key, sorted("self." + g for g in got), sorted("self." + h for h in holders[e.key])),
+                      td.where(e.stmt))
             if init is not None:
                 for p in init.params:
                     if p in ("self", "config"):
